@@ -504,6 +504,13 @@ class StmtMixin:
         if hasattr(self, "reassume_invariants"):
             self.reassume_invariants()
 
+    def _oblige_body(self, label, goals):
+        if isinstance(goals, (list, tuple)):
+            for sub, g in goals:
+                self.ctx.oblige(self.obl_name("POST", "%s/body/%s" % (label, sub)), "POST", g)
+        else:
+            self.ctx.oblige(self.obl_name("POST", label + "/body"), "POST", goals)
+
     def s_While(self, st):
         if st.orelse:
             raise Unsupported("while-else")
@@ -521,12 +528,17 @@ class StmtMixin:
             self.ctx.assume(spec.invariant(L))
         variant0 = spec.variant(L) if (spec and spec.variant) else None
         if self.cond(st.test):
+            L.iter_pre = self.st.snapshot()
+            L.iter_pre_locals = dict(self.frame.locals)
+            L.iter_log_start = len(self.st.log)
             try:
                 self.exec_block(st.body)
             except ContinueEx:
                 pass
             except BreakEx:
                 return
+            if spec is not None and spec.body_ensures is not None:
+                self._oblige_body(label, spec.body_ensures(L))
             if spec is not None and spec.invariant is not None:
                 self.ctx.oblige(self.obl_name("INV", label + "/preserved"), "INV", spec.invariant(L))
             if variant0 is not None:
@@ -661,7 +673,7 @@ class StmtMixin:
                 self.ctx.oblige(self.obl_name("INV", label + "/preserved"), "INV", spec.invariant(L))
             if spec is not None and spec.body_ensures is not None:
                 L.index = idx
-                self.ctx.oblige(self.obl_name("POST", label + "/body"), "POST", spec.body_ensures(L))
+                self._oblige_body(label, spec.body_ensures(L))
             raise PathAbort("loop iteration verified")
         # loop finished: idx == length, invariant holds
 
